@@ -35,6 +35,18 @@ M = [
   'if ( depth + 1 < maxDepth_ && !model_.isTerminal(s1) && !newNode) {', 'if ( depth < maxDepth_ && !model_.isTerminal(s1) && !newNode) {'),
  ('M13 rPOMCP action count not incremented at leaves', RPOMCP,
   '        aNode.N += 1;\n', '        if (immAndFutureRew != 0.0 || depth) aNode.N += 1;\n'),
+ ('N1 MCTS UCT bonus sqrt(log)/N instead of sqrt(log/N)', MCTS,
+  'return an.V + exploration_ * std::sqrt( logCount / an.N );', 'return an.V + exploration_ * std::sqrt( logCount ) / an.N;'),
+ ('N2 rPOMCP entropy: old term not removed from the running sum', 'include/AIToolbox/POMDP/Algorithms/Utils/rPOMCPGraph.hpp',
+  '        knowledgeMeasure_ -= trackBelief_[s].negativeEntropy;\n', '        (void)0;\n'),
+ ('N3 rPOMCP node value not discounted', RPOMCP,
+  'b.V = model_.getDiscount() * b.actionsV + b.getKnowledgeMeasure();', 'b.V = b.actionsV + b.getKnowledgeMeasure();'),
+ ('N4 POMCP UCT uses log(count + 2)', POMCP,
+  'const double logCount = std::log(count + 1.0);', 'const double logCount = std::log(count + 2.0);'),
+ ('N5 rPOMCP max-of-belief: maxS_ moves on ties', 'include/AIToolbox/POMDP/Algorithms/Utils/rPOMCPGraph.hpp',
+  'if ( trackBelief_[s].N > trackBelief_[maxS_].N )', 'if ( trackBelief_[s].N >= trackBelief_[maxS_].N )'),
+ ('N6 rPOMCP maxBeliefNodeUpdate never recomputes when the best action value goes down', RPOMCP,
+  'else if ( a == b.bestAction ) {', 'else if ( false && a == b.bestAction ) {'),
  ('M14 MCTS UCT prefers the last untried action', MCTS,
   'if ( actionValue > bestValue ) {', 'if ( actionValue >= bestValue ) {'),
 ]
